@@ -1,6 +1,7 @@
 package main
 
 import (
+	"github.com/0chain/common/core/statecache"
 	"0chain.net/chaincore/transaction"
 	"time"
 
@@ -124,7 +125,10 @@ func c02warm(run *ev.Run) {
 	acts := append(kvLateFailures(w), kv(w, "c1", "get2", kget("a"), kget("a")), kv(w, "c1", "rmw", kget("a"), kput("a", "7")), kv(w, "c1", "rmw-b", kget("b"), kput("b", "7")))
 	acts = append(acts, governanceAlphabet(w)[:11]...)
 	e := &chainsim.Explorer{Run: run, W: w, Actions: acts, Depth: run.Pick(3, 4), Budget: time.Duration(run.Pick(50, 600)) * time.Second}
-	d := &chainsim.Differential{E: e, Prop: "C02", WarmLineage: true, KeyPrefix: "C02:warm", Envs: envs.Cache}
+	d := &chainsim.Differential{E: e, Prop: "C02", WarmLineage: true, KeyPrefix: "C02:warm",
+		Envs: func(lineage, _ *statecache.StateCache) []*chainsim.Env { // lineage only: fork-shared caches are C07's (known dependency defect)
+			return []*chainsim.Env{{Name: "warm-lineage-cache", Cache: lineage}}
+		}}
 	run.Rule = "every action sequence up to the depth bound over calls that fail AFTER writing / deleting cacheable values (test contract and settings updates failing late), one successful writer, and readers / read-modify-writers of the same keys; each transition executed with a cold cache (trie only) and with the cache warmed by exactly the path's own blocks; (error, status, output, state root, change count, events) must be identical, i.e. nothing a failed call wrote is visible to a later transaction"
 	run.Assumptions = []string{"linear histories only (fork-shared caches belong to C07)", "one transaction per block: the leak path failed txn -> block cache -> state cache -> later block is covered, two transactions inside one block are not"}
 	d.Run()
